@@ -136,6 +136,124 @@ def fingerprint(obj) -> tuple:
 # ---------------------------------------------------------------------------
 
 
+# ---------------------------------------------------------------------------
+# statement-level fault points (crash / interrupt at an arbitrary Python line of the library)
+# ---------------------------------------------------------------------------
+
+STMT_KINDS = ("stmt_fail", "stmt_interrupt")
+_MUTATOR_OPS = frozenset(("STORE_ATTR", "DELETE_ATTR", "STORE_SUBSCR", "DELETE_SUBSCR", "STORE_SLICE"))
+_CODE_CLASS: dict = {}  # code object -> 0 (not the library) | 1 (library) | 2 (library, writes attributes / elements)
+_LIB_DIR = [None]
+STMT_SITES: Counter = Counter()  # (file:function:line) where a statement fault fired, per process
+
+
+def _classify_code(code) -> int:
+    if _LIB_DIR[0] is None:
+        import os as _os
+
+        import groupby_lib as _g
+
+        _LIB_DIR[0] = _os.path.dirname(_os.path.abspath(_g.__file__)) + _os.sep
+    fn = code.co_filename
+    if not fn.startswith(_LIB_DIR[0]):
+        c = 0
+    else:
+        import dis
+
+        c = 1
+        try:
+            if any(i.opname in _MUTATOR_OPS for i in dis.get_instructions(code)):
+                c = 2
+        except Exception:
+            pass
+    _CODE_CLASS[code] = c
+    return c
+
+
+class LineTracer:
+    """Counts the Python line events executed inside groupby_lib frames on this thread (numba
+    compilation excluded, see seams) and, when armed, raises the injected exception *before* the
+    `fire_at`-th of them executes.  mode 0: every library line; mode 1: only lines of library
+    functions that store attributes or elements (where half-done state can be left behind);
+    mode 2: only the lines reached right after an attribute of the object at work (`self`) was
+    stored or deleted -- the instants at which its state is possibly half-changed."""
+
+    def __init__(self, ctx: "SimContext", mode: int = 0, fire_at: Optional[int] = None, kind: Optional[str] = None):
+        self.ctx = ctx
+        self.mode = mode
+        self.fire_at = fire_at
+        self.kind = kind
+        self.count = 0
+        self.fired_at: Optional[str] = None
+        self._prev = None
+        self._sigs: dict = {}
+        self._keep: list = []
+
+    def _global(self, frame, event, arg):
+        if event != "call":
+            return None
+        code = frame.f_code
+        c = _CODE_CLASS.get(code)
+        if c is None:
+            c = _classify_code(code)
+        if c == 0 or (self.mode == 1 and c != 2):
+            return None
+        return self._local
+
+    def _state_changed(self, frame) -> bool:
+        """mode 2: has the attribute table of the object this frame works on been re-bound since
+        the last library line event (anywhere) that looked at it?  (in-place edits of an array
+        held by the object are not seen: only stores / deletions of attributes are)"""
+        obj = frame.f_locals.get("self")
+        d = getattr(obj, "__dict__", None)
+        if not isinstance(d, dict):
+            return False
+        sig = (len(d), hash(tuple(map(id, d.values()))))
+        key = id(obj)
+        old = self._sigs.get(key)
+        self._sigs[key] = sig
+        self._keep.append(obj)  # ids stay unique while the tracer lives
+        return old is not None and old != sig
+
+    def _local(self, frame, event, arg):
+        if event == "line":
+            if self.mode == 2 and not self._state_changed(frame):
+                return self._local
+            n = self.count
+            self.count = n + 1
+            if n == self.fire_at and self.fired_at is None and self.ctx.fault_fired is None:
+                code = frame.f_code
+                where = f"{code.co_filename[len(_LIB_DIR[0]):]}:{code.co_name}:{frame.f_lineno}"
+                self.fired_at = where
+                self.ctx.fault_fired = self.kind
+                self.ctx.fault_where = where
+                self.ctx.log(-1, self.kind, where, n)
+                STMT_SITES[where] += 1
+                if self.kind == "stmt_interrupt":
+                    raise InjectedInterrupt(f"interrupted before {where}")
+                raise InjectedFault(f"injected failure before {where}")
+        return self._local
+
+    def __enter__(self):
+        import sys
+
+        self._prev = sys.gettrace()
+        sys.settrace(self._global)
+        return self
+
+    def __exit__(self, *a):
+        import sys
+
+        sys.settrace(self._prev)
+        self._keep.clear()
+        return False
+
+
+def count_lines(ctx: "SimContext", mode: int) -> LineTracer:
+    """A tracer that only counts (used on the model call to scale a fault position)."""
+    return LineTracer(ctx, mode=mode)
+
+
 class SimContext:
     """Per-execution state shared by all (nested) pools of one public call."""
 
@@ -159,6 +277,7 @@ class SimContext:
         self.exec_counter = 0
         self.submit_counter = 0
         self.fault_fired: Optional[str] = None
+        self.fault_where: Optional[str] = None
         self.wait_counter = 0
         self.pools: List[tuple] = []
         self.stats: Counter = Counter()
@@ -198,9 +317,16 @@ class use_context:
 
     def __enter__(self):
         self.prev = set_context(self.ctx)
+        self.tracer = None
+        f = self.ctx.fault
+        if f and f.get("kind") in STMT_KINDS and f.get("at") is not None:
+            self.tracer = LineTracer(self.ctx, mode=f.get("mode", 0), fire_at=f["at"], kind=f["kind"])
+            self.tracer.__enter__()
         return self.ctx
 
     def __exit__(self, *a):
+        if self.tracer is not None:
+            self.tracer.__exit__()
         set_context(self.prev)
         return False
 
